@@ -450,12 +450,31 @@ PreviousBucket(Bucket **current, Bucket *first)
     return result;
 }
 
+#ifdef BTREES_VERIF
+/* Verification hook: fail the n-th allocation (countdown), count allocations. */
+static long _verif_countdown = -1;   /* < 0: disarmed */
+static long _verif_allocs = 0;
+static int
+_verif_should_fail(void)
+{
+    _verif_allocs++;
+    if (_verif_countdown > 0 && --_verif_countdown == 0) {
+        _verif_countdown = -1;
+        return 1;
+    }
+    return 0;
+}
+#endif
+
 static void *
 BTree_Malloc(size_t sz)
 {
     void *r;
 
     ASSERT(sz > 0, "non-positive size malloc", NULL);
+#ifdef BTREES_VERIF
+    if (_verif_should_fail()) { PyErr_NoMemory(); return NULL; }
+#endif
 
     r = malloc(sz);
     if (r)
@@ -471,6 +490,9 @@ BTree_Realloc(void *p, size_t sz)
     void *r;
 
     ASSERT(sz > 0, "non-positive size realloc", NULL);
+#ifdef BTREES_VERIF
+    if (_verif_should_fail()) { PyErr_NoMemory(); return NULL; }
+#endif
 
     if (p)
         r = realloc(p, sz);
@@ -515,7 +537,30 @@ BTree_ShouldSuppressKeyError()
 #include "SetOpTemplate.c"
 #include "MergeTemplate.c"
 
+#ifdef BTREES_VERIF
+static PyObject *
+verif_arm(PyObject *ignored, PyObject *args)
+{
+    long n;
+    if (!PyArg_ParseTuple(args, "l", &n)) return NULL;
+    _verif_countdown = n > 0 ? n : -1;
+    _verif_allocs = 0;
+    Py_RETURN_NONE;
+}
+static PyObject *
+verif_allocs(PyObject *ignored, PyObject *args)
+{
+    return PyLong_FromLong(_verif_allocs);
+}
+#endif
+
 static struct PyMethodDef module_methods[] = {
+#ifdef BTREES_VERIF
+  {"_verif_arm", (PyCFunction) verif_arm, METH_VARARGS,
+   "_verif_arm(n): make the n-th allocation from now fail (n <= 0 disarms)"},
+  {"_verif_allocs", (PyCFunction) verif_allocs, METH_VARARGS,
+   "_verif_allocs(): allocations attempted since the last _verif_arm"},
+#endif
   {"difference", (PyCFunction) difference_m,    METH_VARARGS,
    "difference(o1, o2)\n"
    "compute the difference between o1 and o2"
